@@ -53,6 +53,161 @@ struct GrammarCase {
     docs: Vec<DocExpect>,
 }
 
+#[derive(Deserialize, Clone)]
+struct SessOp {
+    k: String,
+    e: String,
+    q: usize,
+    d: usize,
+    v: SVal,
+}
+#[derive(Deserialize, Clone)]
+struct SessEv {
+    ev: String,
+    t: usize,
+    op: SessOp,
+    locs: Vec<Loc>,
+    paths: Vec<Cps>,
+    applied: bool,
+    wpath: Cps,
+}
+/// A session of calls by several threads (Session.tla): one interleaving chosen by TLC.
+#[derive(Deserialize)]
+struct SessionCase {
+    id: Value,
+    docs: Vec<SVal>,
+    queries: Vec<Cps>,
+    hist: Vec<SessEv>,
+}
+
+/// Runs one evaluation through the entry point the operation names; returns (locations, paths) as observed.
+fn sess_eval(
+    op: &SessOp,
+    doc: &Value,
+    am: &AddrMap<Value>,
+    queries: &[String],
+    prepared: &[jsonpath_rust::parser::model::JpQuery],
+) -> Result<(Option<Vec<Option<Loc>>>, Option<Vec<String>>), String> {
+    let q = &queries[op.q - 1];
+    let r = guarded(|| -> Result<(Option<Vec<Option<Loc>>>, Option<Vec<String>>), String> {
+        match op.e.as_str() {
+            "query" => {
+                let vs = doc.query(q).map_err(|e| e.to_string())?;
+                Ok((Some(vs.iter().map(|v| am.loc_of(*v).cloned()).collect()), None))
+            }
+            "query_only_path" => Ok((None, Some(doc.query_only_path(q).map_err(|e| e.to_string())?))),
+            "query_with_path" => {
+                let rs = doc.query_with_path(q).map_err(|e| e.to_string())?;
+                Ok((Some(rs.iter().map(|r| am.loc_of(r.clone().val()).cloned()).collect()), Some(rs.into_iter().map(|r| r.path()).collect())))
+            }
+            _ => {
+                let rs = js_path_process(&prepared[op.q - 1], doc).map_err(|e| e.to_string())?;
+                Ok((Some(rs.iter().map(|r| am.loc_of(r.clone().val()).cloned()).collect()), Some(rs.into_iter().map(|r| r.path()).collect())))
+            }
+        }
+    });
+    match r {
+        Err(p) => Err(format!("panic: {p}")),
+        Ok(x) => x,
+    }
+}
+
+fn sess_matches(e: &SessEv, got: &(Option<Vec<Option<Loc>>>, Option<Vec<String>>)) -> bool {
+    let locs_ok = match &got.0 {
+        Some(ls) => ls.len() == e.locs.len() && ls.iter().zip(e.locs.iter()).all(|(a, b)| a.as_ref() == Some(b)),
+        None => true,
+    };
+    let paths_ok = match &got.1 {
+        Some(ps) => ps.len() == e.paths.len() && ps.iter().zip(e.paths.iter()).all(|(a, b)| *a == cps_to_string(b)),
+        None => true,
+    };
+    locs_ok && paths_ok
+}
+
+fn check_session(c: &SessionCase, threaded: bool, rounds: usize, out: &mut Out, stats: &mut HashMap<String, u64>) {
+    let queries: Vec<String> = c.queries.iter().map(|q| cps_to_string(q)).collect();
+    let prepared: Vec<_> = match queries.iter().map(|q| parse_json_path(q)).collect::<Result<Vec<_>, _>>() {
+        Ok(p) => p,
+        Err(e) => {
+            out.mismatch(json!({"kind":"mismatch","check":"session","repr":"Value","id":c.id,"q":"","what":format!("a session query does not parse: {e}")}));
+            return;
+        }
+    };
+    let mut docs: Vec<Value> = c.docs.iter().map(|d| d.to_value()).collect();
+    let describe = |n: usize| -> Vec<String> {
+        c.hist.iter().take(n + 1).map(|e| if e.ev == "write" { format!("t{} write doc{} {} := {}", e.t, e.op.d, cps_to_string(&e.wpath), e.op.v.to_value()) }
+            else { format!("t{} {} {}({}) on doc{}", e.t, e.ev, e.op.e, queries.get(e.op.q.wrapping_sub(1)).cloned().unwrap_or_default(), e.op.d) }).collect()
+    };
+    // (a) sequential replay in the order TLC chose, one process, long-lived parsed queries and documents
+    *stats.entry("session_sequential".into()).or_default() += 1;
+    for (n, e) in c.hist.iter().enumerate() {
+        match e.ev.as_str() {
+            "write" => {
+                let path = cps_to_string(&e.wpath);
+                let newv = e.op.v.to_value();
+                let found = match docs[e.op.d - 1].reference_mut(path) { Some(r) => { *r = newv; true } None => false };
+                if found != e.applied {
+                    out.mismatch(json!({"kind":"mismatch","check":"session","repr":"Value","id":c.id,"q":cps_to_string(&e.wpath),"what":"write through reference_mut did not behave as specified","history":describe(n)}));
+                    return;
+                }
+            }
+            "return" => {
+                let doc = &docs[e.op.d - 1];
+                let before = doc.clone();
+                let am = AddrMap::new(doc);
+                match sess_eval(&e.op, doc, &am, &queries, &prepared) {
+                    Ok(got) if sess_matches(e, &got) && *doc == before => {}
+                    other => {
+                        out.mismatch(json!({"kind":"mismatch","check":"session","repr":"Value","id":c.id,"q":queries[e.op.q - 1],"doc":doc,
+                            "what":"in this history a call returned something else than the query's nodelist on the current document",
+                            "entry":e.op.e,"expect":locs_disp(&e.locs),"expect_paths":e.paths.iter().map(|p| cps_to_string(p)).collect::<Vec<_>>(),
+                            "actual":format!("{:?}", other.map(|g| (g.0.map(|ls| ls.iter().map(|l| l.as_ref().map(loc_display)).collect::<Vec<_>>()), g.1))),
+                            "history":describe(n)}));
+                        return;
+                    }
+                }
+            }
+            _ => {}
+        }
+    }
+    // (b) the same programs run by real threads sharing the parsed queries and the documents (histories without writes)
+    if threaded && c.hist.iter().all(|e| e.ev != "write") {
+        *stats.entry("session_threaded".into()).or_default() += 1;
+        let docs0: std::sync::Arc<Vec<Value>> = std::sync::Arc::new(c.docs.iter().map(|d| d.to_value()).collect());
+        let prepared = std::sync::Arc::new(prepared);
+        let queries = std::sync::Arc::new(queries.clone());
+        let nthreads = 6usize;
+        let barrier = std::sync::Arc::new(std::sync::Barrier::new(nthreads));
+        let mut handles = vec![];
+        for t in 0..nthreads {
+            // thread t runs the program of spec thread (t % 2) + 1
+            let prog: Vec<SessEv> = c.hist.iter().filter(|e| e.ev == "return" && e.t == (t % 2) + 1).cloned().collect();
+            let (docs0, prepared, queries, barrier) = (docs0.clone(), prepared.clone(), queries.clone(), barrier.clone());
+            handles.push(std::thread::spawn(move || -> Option<String> {
+                let ams: Vec<AddrMap<Value>> = docs0.iter().map(AddrMap::new).collect();
+                barrier.wait();
+                for round in 0..rounds {
+                    for e in prog.iter() {
+                        match sess_eval(&e.op, &docs0[e.op.d - 1], &ams[e.op.d - 1], &queries, &prepared) {
+                            Ok(got) if sess_matches(e, &got) => {}
+                            other => return Some(format!("thread {t} round {round}: {}({}) on doc{} returned {:?}", e.op.e, queries[e.op.q - 1], e.op.d,
+                                other.map(|g| (g.0.map(|ls| ls.iter().map(|l| l.as_ref().map(loc_display)).collect::<Vec<_>>()), g.1)))),
+                        }
+                    }
+                }
+                None
+            }));
+        }
+        for h in handles {
+            match h.join() {
+                Ok(None) => {}
+                Ok(Some(msg)) => { out.mismatch(json!({"kind":"mismatch","check":"session","repr":"Value","id":c.id,"q":"","what":"concurrent use of a shared parsed query / document returned a wrong result","detail":msg,"history":describe(c.hist.len())})); return; }
+                Err(_) => { out.mismatch(json!({"kind":"mismatch","check":"session","repr":"Value","id":c.id,"q":"","what":"a thread panicked during concurrent use","history":describe(c.hist.len())})); return; }
+            }
+        }
+    }
+}
+
 #[derive(Deserialize)]
 struct RefOp {
     op: String,
@@ -447,6 +602,29 @@ fn main() {
     for line in stdin.lock().lines() {
         let line = line.expect("read");
         if line.trim().is_empty() {
+            continue;
+        }
+        if line.contains("\"mode\":\"session\"") {
+            let c: SessionCase = match serde_json::from_str(&line) {
+                Ok(c) => c,
+                Err(e) => {
+                    eprintln!("TOOL-ERROR bad session line: {e}: {}", &line[..line.len().min(200)]);
+                    std::process::exit(2);
+                }
+            };
+            cases += 1;
+            nonempty += 1;
+            {
+                use std::hash::{Hash, Hasher};
+                let mut h = std::collections::hash_map::DefaultHasher::new();
+                line.hash(&mut h);
+                distinct.insert(h.finish());
+            }
+            let thorough = std::env::var("VERIF_TIER").map(|t| t == "thorough").unwrap_or(false);
+            check_session(&c, cases % (if thorough { 10 } else { 60 }) == 0, if thorough { 25 } else { 8 }, &mut out, &mut stats);
+            for v in out.buf.drain(..) {
+                writeln!(w, "{}", v).unwrap();
+            }
             continue;
         }
         if line.contains("\"mode\":\"refstore\"") {
